@@ -65,7 +65,7 @@ def gates(tier):
         "min_decided": {APIS[0]: 15000 * k, APIS[1]: 10000 * k},
         "shapes": {c: 5 * k for c in ["ignore", "no-ignore", "multibyte>=2", "ci-terminal", "regex-terminal", "ebnf:star", "ebnf:plus",
                                       "ebnf:opt", "ebnf:alt", "recursive-rule", "bytes:truncated", "accepted-samples",
-                                      "ci:multichar-case-mapping", "names:suffix-style", "anonymous-literals", "option:charset-set", "ignored-terminal-in-rule"]},
+                                      "ci:multichar-case-mapping", "names:suffix-style", "anonymous-literals", "option:charset-set", "ignored-terminal-in-rule", "ignore:several"]},
         "min_hashseeds": 2,
     }
 
@@ -138,17 +138,24 @@ def gen_case(rng, spec):
         lines.append(f"{rn}: {body}")
     for nm, t in zip(names, tl):
         lines.append(f"{nm}: {t[0]}")
+    ign2 = None
     if ign:
         lines.append(f"WS: {ign[0]}")
         lines.append("%ignore WS")
+        if rng.random() < 0.35:
+            # several %ignore directives: each ignored terminal is an alternative, not a sequence
+            ign2 = rng.choice([('"."', ".", ["."]), ('"~"', "~", ["~"]), ("/[.;]/", ".;", [".", ";"])])
+            lines.append(f"IG2: {ign2[0]}")
+            lines.append("%ignore IG2")
     text = "\n".join(lines) + "\n"
     chars = sorted({c for t in tl for c in t[1]})
     rng.shuffle(chars)
     extra = set()
     if anon:
         extra = set(rng.sample(["x", "_", "1", "="], 2))
-    alphabet = sorted(set(chars[: 3 - (1 if anon else 0)]) | extra | ({ign[1][0]} if ign else set()) | {"q"})
-    examples = {nm: t[2] for nm, t in zip(names, tl)} | ({"WS": ign[2]} if ign else {})
+    alphabet = sorted(set(chars[: 3 - (1 if anon else 0) - (1 if ign2 else 0)]) | extra | ({ign[1][0]} if ign else set())
+                      | ({ign2[1][0]} if ign2 else set()) | {"q"})
+    examples = {nm: t[2] for nm, t in zip(names, tl)} | ({"WS": ign[2]} if ign else {}) | ({"IG2": ign2[2]} if ign2 else {})
     for a in anon:
         lit = a.strip('"')
         examples[{"x": "X", "x_1": "X_1", "x_2": "X_2", "x_0": "X_0", "=": "EQUAL"}[lit]] = [lit]
@@ -231,6 +238,8 @@ def run_case(case, ctx):
         feats.add("ci:multichar-case-mapping")
     if any(nm == "WS" and t for h, body in O.R for nm, t in body):
         feats.add("ignored-terminal-in-rule")
+    if len(O.ignores) >= 2:
+        feats.add("ignore:several")
     if any(("_" in nm) for nm in O.T if nm != "WS" and not nm.startswith("__")):
         feats.add("names:suffix-style")
     if any(nm in ("X", "X_0", "X_1", "X_2", "EQUAL") for nm in O.T) and '"x' in text or '"="' in text:
